@@ -5,6 +5,7 @@
 // serialized image, and applies every operation of the alphabet in turn, restoring the image in between
 // (every restore is followed by a re-dump that must equal the state's dump: "assert canon on replay").
 #pragma once
+#include <algorithm>
 #include <map>
 #include <unordered_map>
 #include <unordered_set>
@@ -70,6 +71,7 @@ Stats explore(const Options& o, const Cfg& cfg, Reporter& rep, Agg& total)
         eng::engine_schema s;
         std::unordered_set<std::string> seen;
         std::vector<std::string> frontier;  // histories
+        std::map<int, std::vector<std::string>> delayed;  // seeds "@k:<history>" join the frontier after level k (they get depth - k further operations)
         int depth = 0, done_depth = 0;
     };
     std::vector<PerSchema> ps;
@@ -99,7 +101,18 @@ Stats explore(const Options& o, const Cfg& cfg, Reporter& rep, Agg& total)
             auto& p = ps[si];
             if (level == 0)
             {
-                Task t{si, D::seeds(p.s)};
+                Task t{si, {}};
+                for (auto seed : D::seeds(p.s))
+                {
+                    int delay = 0;
+                    if (seed.size() > 2 && seed[0] == '@')
+                    {
+                        delay = atoi(seed.c_str() + 1);
+                        seed = seed.substr(seed.find(':') + 1);
+                        p.delayed[delay].push_back(seed);
+                    }
+                    t.items.push_back(seed);
+                }
                 tasks.push_back(t);
                 continue;
             }
@@ -191,7 +204,11 @@ Stats explore(const Options& o, const Cfg& cfg, Reporter& rep, Agg& total)
                     {
                         if (p.seen.insert(parts[1]).second)
                         {
-                            next[tasks[ti].schema_idx].push_back(parts.size() > 2 ? parts[2] : "");
+                            std::string hist0 = parts.size() > 2 ? parts[2] : "";
+                            bool is_delayed = false;
+                            for (auto& kv : p.delayed)
+                                if (kv.first > 0 && std::find(kv.second.begin(), kv.second.end(), hist0) != kv.second.end()) is_delayed = true;
+                            if (!is_delayed) next[tasks[ti].schema_idx].push_back(hist0);
                             if (cfg.collect_histories) st.all_histories.push_back(schema_name(p.s) + "|" + (parts.size() > 2 ? parts[2] : ""));
                         }
                     }
@@ -233,6 +250,12 @@ Stats explore(const Options& o, const Cfg& cfg, Reporter& rep, Agg& total)
         {
             if (level == 0 || level <= ps[si].depth + (cfg.visit_states ? 1 : 0))
             {
+                if (level > 0)
+                {
+                    auto dl2 = ps[si].delayed.find(level);
+                    if (dl2 != ps[si].delayed.end())
+                        for (auto& h : dl2->second) next[si].push_back(h);
+                }
                 ps[si].frontier = std::move(next[si]);
                 if (level_complete) ps[si].done_depth = level;
             }
